@@ -33,88 +33,14 @@
        (or Done is waiting): the lost wake-up as a STATE; only blocking calls park;
      * after Done returned nothing touches the sleeper (never dirty), and the re-attachment probe
        delivers only to the new sleeper, one notification per waker. *)
-EXTENDS TraceIO, FiniteSets
-VARIABLES a, att, pend, cons, parkedv, doneRet
-tvars == <<l, a, att, pend, cons, parkedv, doneRet>>
-P == 0..8
-WK == 1..8
-None == [op |-> "none", w |-> 0, block |-> FALSE, wit |-> FALSE]
-
-AssertInFlight(pd, w) == \E q \in P : pd[q].op = "Assert" /\ pd[q].w = w
-\* no attached waker has a completed, unconsumed assertion
-NothingComplete(av, at, pd) == \A w \in at : (w \in av) => AssertInFlight(pd, w)
-\* calls in progress that can still report a consumption of w
-Cand(at, pd, w) == Cardinality({p \in P : pd[p].op = "Clear" /\ pd[p].w = w})
-                   + (IF pd[0].op = "Fetch" /\ w \in at THEN 1 ELSE 0)
-\* the moment (av, at, pd) witnesses what call c needs to have seen
-Wit(c, av, at, pd) == CASE c.op = "Assert" -> c.w \in av
-                        [] c.op = "Clear"  -> c.w \notin av
-                        [] c.op = "Fetch"  -> ~c.block /\ NothingComplete(av, at, pd)
-                        [] OTHER -> FALSE
-Quiet(pd) == \A p \in P \ {0} : pd[p] = None
-\* holds after every event
-OK(av, at, pd, cn, pk) ==
-    /\ \A w \in WK : cn[w] <= Cand(at, pd, w)                                     \* every consumption gets reported
-    /\ pk => (pd[0].op \in {"Fetch", "Done"} /\ pd[0].block)                      \* only blocking calls sleep
-    /\ ~(pk /\ Quiet(pd) /\ (pd[0].op = "Done" \/ \E w \in at : w \in av))        \* no lost wake-up
-Post == OK(a', att', pend', cons', parkedv')
-
-Fresh == /\ a' = {} /\ pend' = [p \in P |-> None] /\ cons' = [w \in WK |-> 0] /\ parkedv' = FALSE /\ doneRet' = FALSE
-TInit == /\ l = 1 /\ a = {} /\ att = {} /\ pend = [p \in P |-> None] /\ cons = [w \in WK |-> 0]
-         /\ parkedv = FALSE /\ doneRet = FALSE /\ HWInit
-
-Reset == /\ IsEvent("reset") /\ Fresh
-         /\ att' = IF Ev.pre THEN 1..Ev.nw ELSE {}
-
-Call == /\ IsEvent("call")
-        /\ LET p == Ev.p  op == Ev.op
-               c == [op |-> op, w |-> IF Has(Ev, "w") THEN Ev.w ELSE 0,
-                     block |-> IF Has(Ev, "block") THEN Ev.block ELSE (op = "Done"), wit |-> FALSE] IN
-           /\ pend[p] = None
-           /\ (p = 0) <=> (op \in {"AddWaker", "Fetch", "Done"})
-           /\ (p # 0) => (op \in {"Assert", "Clear"})
-           /\ (p = 0) => ~doneRet
-           /\ (op = "AddWaker") => c.w \notin att
-           /\ pend' = [pend EXCEPT ![p] = [c EXCEPT !.wit = Wit(c, a, att, pend)]]   \* the moment of the call counts
-        /\ UNCHANGED <<a, att, cons, parkedv, doneRet>>
-        /\ Post
-
-Obs == /\ IsEvent("obs")
-       /\ LET av == SeqToSet(Ev.asserted) IN
-          /\ \A w \in av \ a : AssertInFlight(pend, w)                             \* asserted only by an Assert in progress
-          /\ cons' = [w \in WK |-> IF w \in a \ av THEN cons[w] + 1 ELSE cons[w]]  \* consumed: to be reported
-          /\ a' = av
-          /\ pend' = [p \in P |-> IF pend[p] = None THEN None
-                                  ELSE [pend[p] EXCEPT !.wit = @ \/ Wit(pend[p], av, att, pend)]]
-       /\ parkedv' = Ev.parked
-       /\ doneRet => ~Ev.dirty                                                     \* nobody touches it after Done
-       /\ UNCHANGED <<att, doneRet>>
-       /\ Post
-
-Ret == /\ IsEvent("ret")
-       /\ LET p == Ev.p  c == pend[Ev.p] IN
-          /\ c.op = Ev.op
-          /\ CASE c.op = "Assert" -> c.wit /\ UNCHANGED cons
-               [] c.op = "Clear"  -> IF Ev.ok THEN cons[c.w] > 0 /\ cons' = [cons EXCEPT ![c.w] = @ - 1]
-                                     ELSE c.wit /\ UNCHANGED cons
-               [] c.op = "Fetch"  -> IF Ev.ok THEN /\ Ev.id \in att /\ cons[Ev.id] > 0
-                                                   /\ cons' = [cons EXCEPT ![Ev.id] = @ - 1]
-                                     ELSE ~c.block /\ c.wit /\ UNCHANGED cons
-               [] OTHER -> UNCHANGED cons
-          /\ pend' = [pend EXCEPT ![p] = None]
-          /\ att' = CASE c.op = "AddWaker" -> att \cup {c.w} [] c.op = "Done" -> {} [] OTHER -> att
-          /\ doneRet' = (doneRet \/ c.op = "Done")
-       /\ UNCHANGED <<a, parkedv>>
-       /\ Post
-
-\* entry of `new`: <<w, id, ok, id2, ok2>> = two Asserts of w then two non-blocking fetches on the new sleeper
-Reattach == /\ IsEvent("reattach")
-            /\ doneRet /\ \A p \in P : pend[p] = None
-            /\ Len(Ev.old) = 0
-            /\ \A i \in DOMAIN Ev.new : LET e == Ev.new[i] IN
-                  Len(e) = 5 /\ e[3] = TRUE /\ e[2] = 100 + e[1] /\ e[5] = FALSE
-            /\ UNCHANGED <<a, att, pend, cons, parkedv, doneRet>>
-
+EXTENDS TraceIO, SleepMon
+tvars == <<l, mvars>>
+TInit == l = 1 /\ MStart(0, FALSE) /\ HWInit
+Reset == IsEvent("reset") /\ MReset(Ev)
+Call == IsEvent("call") /\ MCall(Ev)
+Obs == IsEvent("obs") /\ MObs(Ev)
+Ret == IsEvent("ret") /\ MRet(Ev)
+Reattach == IsEvent("reattach") /\ MReattach(Ev)
 TNext == Reset \/ Call \/ Ret \/ Obs \/ Reattach
 TSpec == TInit /\ [][TNext]_tvars
 ====
